@@ -46,8 +46,8 @@ ASSUMPTIONS = [
 
 def plan(tier):
     if tier == "thorough":
-        return {"runs": 150000, "chunk": 200, "wall_budget": 3300, "resample": 20, "hang_s": 900}
-    return {"runs": 4000, "chunk": 40, "wall_budget": 900, "resample": 10}
+        return {"runs": 30000, "chunk": 40, "wall_budget": 3300, "resample": 20, "hang_s": 900}
+    return {"runs": 800, "chunk": 8, "wall_budget": 900, "resample": 10}
 
 
 # ---------------------------------------------------------------------------
@@ -680,6 +680,8 @@ def large_case(run_seed, tier, which):
         sandbox.remove(root)
 
 
+CASES_PER_RUN = 5
+
 LONG_WHATS = ["index", "stream_fwd", "stream_rev", "stream_gap", "index_mixed_width", "autoload_warm", "autoload_torn", "cli_fasta", "stream_unwrapped", "stream_oneline_input"]
 
 
@@ -736,14 +738,30 @@ def run_one(run_seed, i, tier):
             "digest": digest_of(["large", v is None]), "evals": n, "events": 0, "classes": ["large"],
             "violations": [v] if v else [], "probes": {"large_differential_cases": 1}, "faults": {},
         }
-    case = gen_case(rng)
-    res = execute_case(case, run_seed, tier)
-    if i in (nlong + nlarge, nlong + nlarge + 1):
-        res["sample"] = {
-            "fasta": gen.render_fasta(case["fasta"]).decode("ascii", "replace")[:300],
-            "assembly": case["scaffolds"], "buffer_sizes": case["bufs"], "knobs": case["knobs"],
-        }
-    return res
+    # several small workloads per run (a run is one forked process)
+    total = None
+    for k in range(CASES_PER_RUN):
+        case = gen_case(rng)
+        res = execute_case(case, (run_seed + k) & 0xFFFFFFFFFFFF, tier)
+        if total is None:
+            total = res
+            if i in (nlong + nlarge, nlong + nlarge + 1):
+                total["sample"] = {
+                    "fasta": gen.render_fasta(case["fasta"]).decode("ascii", "replace")[:300],
+                    "assembly": case["scaffolds"], "buffer_sizes": case["bufs"], "knobs": case["knobs"],
+                }
+        else:
+            total["digest"] = digest_of([total["digest"], res["digest"]])
+            for key in ("events", "evals", "discarded"):
+                total[key] += res[key]
+            for key in ("faults", "probes"):
+                for a, b in res[key].items():
+                    total[key][a] = total[key].get(a, 0) + b
+            total["classes"] = sorted(set(total["classes"]) | set(res["classes"]))
+            total["violations"].extend(res["violations"])
+        if total["violations"]:
+            break
+    return total
 
 
 def replay(obj):
